@@ -266,7 +266,7 @@ theorem detectRenames_nil (env : Env) (t : Node) (rootHist : Hist) (s : Session)
 
 /-- every expected path (of the root history and of all nested histories, re-rooted) is visible or ignored -/
 def ExpectedPresent (env : Env) (t : Node) (rootHist : Hist) (o : CreateOpts) : Prop :=
-  ∀ p ∈ expectedPaths rootHist, (∃ d, (p, d) ∈ visiblePaths (cHit env rootHist o) t) ∨ cHit env rootHist o p = true
+  ∀ p ∈ expectedPaths rootHist, (∃ d, (p, d) ∈ visiblePaths (cHit env rootHist o) t) ∨ hitAbove (cHit env rootHist o) p = true
 
 /-- every nested history the latest root generation references still has its `ascmhl` folder -/
 def RefsPresent (t : Node) (rootHist : Hist) : Prop :=
@@ -274,7 +274,7 @@ def RefsPresent (t : Node) (rootHist : Hist) : Prop :=
     ∃ n, t.at? (splitPath ref).dropLast.dropLast = some n ∧ n.hist.isSome = true
 
 theorem cNotFound_nil (hexp : ExpectedPresent env t rootHist o) :
-    (cNotFound_u env t rootHist o).filter (fun p => !cHit env rootHist o p) = [] := by
+    (cNotFound_u env t rootHist o).filter (fun p => !hitAbove (cHit env rootHist o) p) = [] := by
   have hfound : (cState env t rootHist o).found = (visiblePaths (cHit env rootHist o) t).map (·.1) := by
     unfold cState
     rw [createFold_found, visiblePaths_map_fst]
@@ -301,7 +301,7 @@ theorem cMissingGen_nil (hexp : ExpectedPresent env t rootHist o) : cMissingGen 
     split at hp1
     · exact (List.mem_filter.1 hp1).1
     · exact hp1
-  have : p ∈ (cNotFound_u env t rootHist o).filter (fun p => !cHit env rootHist o p) := by
+  have : p ∈ (cNotFound_u env t rootHist o).filter (fun p => !hitAbove (cHit env rootHist o) p) := by
     rw [List.mem_filter]
     exact ⟨hin, by simp [hp2]⟩
   rw [h0] at this
@@ -386,7 +386,7 @@ theorem nested_verify_ok_partial (hl : loadHistory t = .ok rootHist) (hg : rootH
     (hsf : o.singleFile = none)
     (hrec : ∀ p, (p, false) ∈ visiblePaths (vHit env rootHist o) t → RecordedConsistent env t rootHist p)
     (hexp : ∀ p ∈ expectedPaths rootHist,
-      (∃ d, (p, d) ∈ visiblePaths (vHit env rootHist o) t) ∨ vHit env rootHist o p = true) :
+      (∃ d, (p, d) ∈ visiblePaths (vHit env rootHist o) t) ∨ hitAbove (vHit env rootHist o) p = true) :
     ((verify env t o).err = none ∧ (verify env t o).exitCode = 0 ∧ (verify env t o).report.mismatch = [] ∧
       (verify env t o).report.new = [] ∧ (verify env t o).report.missing = []) ∧
     ((diff env t o).err = none ∧ (diff env t o).exitCode = 0 ∧ (diff env t o).report.mismatch = [] ∧
@@ -436,11 +436,11 @@ theorem allRecordedB_spec (env : Env) (t : Node) (rootHist : Hist) (hit : RelPat
 
 /-- every expected path is visible or ignored -/
 def expectedPresentB (t : Node) (rootHist : Hist) (hit : RelPath → Bool) : Bool :=
-  (expectedPathsWith splitPathL rootHist).all fun p => ((visiblePaths hit t).any fun x => x.1 == p) || hit p
+  (expectedPathsWith splitPathL rootHist).all fun p => ((visiblePaths hit t).any fun x => x.1 == p) || hitAbove hit p
 
 theorem expectedPresentB_spec (t : Node) (rootHist : Hist) (hit : RelPath → Bool)
     (h : expectedPresentB t rootHist hit = true) :
-    ∀ p ∈ expectedPaths rootHist, (∃ d, (p, d) ∈ visiblePaths hit t) ∨ hit p = true := by
+    ∀ p ∈ expectedPaths rootHist, (∃ d, (p, d) ∈ visiblePaths hit t) ∨ hitAbove hit p = true := by
   intro p hp
   rw [expectedPaths_eq_with] at hp
   have := List.all_eq_true.1 h p hp
@@ -485,7 +485,7 @@ def LiteralHyps (env : Env) (t : Node) (rootHist : Hist) : Prop :=
   loadHistory t = .ok rootHist ∧ t.NamesDistinct ∧ t.NamesOk ∧
   (∀ p, (p, false) ∈ visiblePaths (vHit env rootHist {}) t → HasRecord rootHist p ∧ Consistent env t rootHist p) ∧
   (∀ p ∈ expectedPaths rootHist,
-    (∃ d, (p, d) ∈ visiblePaths (vHit env rootHist {}) t) ∨ vHit env rootHist {} p = true)
+    (∃ d, (p, d) ∈ visiblePaths (vHit env rootHist {}) t) ∨ hitAbove (vHit env rootHist {}) p = true)
 
 /-- a Boolean test for the two quantified hypotheses -/
 theorem literalHyps_of_tests (env : Env) (t : Node) (rootHist : Hist) (hl : loadHistory t = .ok rootHist)
@@ -737,7 +737,7 @@ theorem reseal_any_formats (fmts : List String) (nd dr : Bool) :
 theorem hyps3 : (loadD big3).gens ≠ [] ∧
     (∀ p, (p, false) ∈ visiblePaths (vHit envR (loadD big3) {}) big3 → RecordedConsistent envR big3 (loadD big3) p) ∧
     (∀ p ∈ expectedPaths (loadD big3),
-      (∃ d, (p, d) ∈ visiblePaths (vHit envR (loadD big3) {}) big3) ∨ vHit envR (loadD big3) {} p = true) :=
+      (∃ d, (p, d) ∈ visiblePaths (vHit envR (loadD big3) {}) big3) ∨ hitAbove (vHit envR (loadD big3) {}) p = true) :=
   ⟨by decide +kernel, allRecordedB_spec _ _ _ _ (by decide +kernel), expectedPresentB_spec _ _ _ (by decide +kernel)⟩
 
 example : (verify envR big3 {}).err = none ∧ (diff envR big3 {}).err = none :=
